@@ -52,6 +52,14 @@ def create (z : ZRef) (w : Int) (fold raise : Bool) : Except Err V :=
     | .error .ambiguous => .error .ambiguous
     | .ok l => if inRange l.w then .ok ⟨z, l.w, l.fold⟩ else .error .overflow
 
+/-- `Timezone.convert` applied to a *pendulum* naive DateTime: same normalisation, but the shift out of a gap
+    goes through pendulum's own `+` (whose naive result carries the constructor's default fold=1) and the final
+    `replace(tzinfo=…)` re-creates that value — so a moved value reports fold=1 instead of 0 -/
+def createFromPendulumNaive (z : ZRef) (w : Int) (fold raise : Bool) : Except Err V :=
+  match z, create z w fold raise with
+  | .named zt, .ok v => if zt.woff true w > zt.woff false w then .ok { v with fold := true } else .ok v
+  | _, r => r
+
 /-- `DateTime.instance` of an aware native value whose own UTC offset is `srcOff`: the wall time is
     re-created in the pendulum zone with the source's fold, except that the other occurrence is chosen
     when only it has the source's offset (tzinfo implementations that ignore `fold`, e.g. pytz) -/
